@@ -76,6 +76,9 @@ def check(run, prog, tier):
     run.rule("C01-G", "a tensor that is completed incrementally (updateStructure subtracts from what is stored) is calculated from "
                       "freshly zeroed data on every calculation", minimum=4)
     rule_G(run, prog)
+    run.rule("C01-H", "a Lindblad form may have no system-bath interaction: the methods it inherits do not dereference "
+                      "self.SystemBathInteraction where it can be None", minimum=3)
+    rule_H(run, prog)
     rule_A(run, prog)
     rule_B(run, prog)
     rule_C(run, prog)
@@ -576,3 +579,46 @@ def rule_D(run, prog):
                     funcs.append(fn)
     apiexist.check_self_attributes(run, rid, prog, funcs, "constructing the tensor")
     apiexist.check_call_arity(run, rid, prog, funcs, "constructing the tensor")
+
+
+def rule_H(run, prog):
+    """'Lindblad forms ... all options (operator or tensor form)': LindbladForm._implementation handles sbi is None (one zero
+    operator - no relaxation).  The object it leaves keeps self.SystemBathInteraction = None, so every method the class
+    inherits and that works on the operators (conversion to the tensor, apply, transform, secularize) must not dereference
+    self.SystemBathInteraction without a test for None.  Positive control: LindbladForm._implementation itself tests
+    `sbi is None`."""
+    from ..loader import parents_map
+    rid = "C01-H"
+    lf = prog.cls("quantarhei.qm.liouvillespace.lindbladform.LindbladForm")
+    impl = lf.methods.get("_implementation")
+    if impl is None or not any(isinstance(x, ast.Compare) and norm(x) in ("sbi is None", "sbi is not None") for x in ast.walk(impl.node)):
+        raise AnalysisError("LindbladForm._implementation no longer provides for sbi is None")
+    methods = {}
+    for b in reversed([x for x in prog.mro(lf) if x is not None]):
+        for nme, fn in b.methods.items():
+            methods[nme] = fn
+    n = 0
+    for nme in ("convert_2_tensor", "_convert_operators_2_tensor", "apply", "transform", "secularize", "_post_implementation"):
+        fn = methods.get(nme)
+        if fn is None:
+            continue
+        n += 1
+        prog.consulted.add(fn.relpath)
+        pm = parents_map(fn.node)
+        bad = None
+        for x in walk_no_nested(fn.node):
+            if isinstance(x, ast.Attribute) and isinstance(x.value, ast.Attribute) and norm(x.value) == "self.SystemBathInteraction":
+                g, node = False, x
+                while node is not None and node is not fn.node:
+                    p_ = pm.get(node)
+                    if isinstance(p_, ast.If) and "self.SystemBathInteraction is not None" in norm(p_.test) and any(node is b for b in p_.body):
+                        g = True
+                    node = p_
+                if not g:
+                    bad = x
+        run.obligation(rid, fn.short, bad is None, key="sbi-may-be-None",
+                       message="%s reads %s; for a Lindblad form created with sbi=None (which LindbladForm._implementation provides for) "
+                               "self.SystemBathInteraction is None and the tensor form of 'no relaxation' cannot be made"
+                               % (fn.short, norm(bad) if bad is not None else ""), loc=fn.loc(bad) if bad is not None else fn.loc(fn.node))
+    if n < 3:
+        raise AnalysisError("only %d inherited methods of LindbladForm examined" % n)
